@@ -55,6 +55,7 @@ type RunResult struct {
 
 // Family is one workload family of a property.
 type Family struct {
+	Cost int // extra cost per run in step equivalents (runs that are slow for other reasons than steps)
 	Name string
 	// Sweep: after a base run (Param 0) the worker runs the same seed with
 	// Param 1..res.Sweep (complete single-fault enumeration relative to
@@ -874,7 +875,7 @@ func init() {
 			}
 		}
 	}, "damaged_session_recovered", "second_adoption_after_damage")})
-	register("C15", Family{Name: "single-byte", Weight: 1, Sweep: true, Run: func(w *World, spec *RunSpec, res *RunResult) {
+	register("C15", Family{Name: "single-byte", Weight: 3, Sweep: true, Run: func(w *World, spec *RunSpec, res *RunResult) {
 		flowFamily(func(f *Flow) {
 			o := &f.O
 			o.Generations = 2
@@ -1100,7 +1101,7 @@ func init() {
 		o.Net.SlowClose = true
 		o.BigPayload = 400
 	}, "healthy_connection_closed_by_client", "disk_err_before_D", "goroutine_held_back")})
-	register("C11", Family{Name: "id-window", Weight: 1, Run: flowFamily(func(f *Flow) {
+	register("C11", Family{Name: "id-window", Weight: 40, Run: flowFamily(func(f *Flow) {
 		o := &f.O
 		o.Publishers, o.Requesters, o.Inbound = 0, 0, 0
 		o.Net = NetOpts{Pipe: o.Net.Pipe}
@@ -1110,7 +1111,7 @@ func init() {
 		f.W.MaxSteps = 2000000
 		f.Custom = func(f *Flow, s *Sim) { f.idWindowTasks(s) }
 	}, "identifier_window_wrapped")})
-	register("C17", Family{Name: "id-window", Weight: 1, Run: flowFamily(func(f *Flow) {
+	register("C17", Family{Name: "id-window", Weight: 60, Run: flowFamily(func(f *Flow) {
 		// the subscribe/unsubscribe identifier counter once around while a
 		// request is pending: its identifier must be skipped
 		o := &f.O
@@ -1170,7 +1171,7 @@ func init() {
 		o.PerPub = 2 + f.W.Tape.Draw("perpub17w", 6)
 		o.Budget = 2
 	}, "pending_range_straddles_wrap")})
-	register("C17", Family{Name: "long-wrap", Weight: 1, ThoroughOnly: true, Run: flowFamily(func(f *Flow) {
+	register("C17", Family{Name: "long-wrap", Weight: 150, ThoroughOnly: true, Run: flowFamily(func(f *Flow) {
 		// crosses the 14-bit identifier space for real: more than 16,384
 		// publishes of one level through a small window
 		o := &f.O
